@@ -46,14 +46,21 @@ Definition record : Type := list (string * fval).
 (* sys.maxsize on the 64-bit CPython the library runs on *)
 Definition MAX_SSIZE : Z := 2 ^ 63 - 1.
 
-(* the bytes from absolute position pos on (b'' beyond EOF).  The comparison first:
-   Z.to_nat of a 2^60-ish offset must never be computed. *)
-Definition rest_at (bs : list Z) (pos : Z) : list Z :=
-  if zlen bs <=? pos then [] else skipn (Z.to_nat pos) bs.
+(* Lists of up to a few hundred thousand bytes are walked with Z counters (never
+   Z.to_nat of an offset read from the file, never a unary length). *)
+Fixpoint blen_go (l : list Z) (acc : Z) : Z :=
+  match l with [] => acc | _ :: r => blen_go r (acc + 1) end.
+Definition blen (l : list Z) : Z := blen_go l 0.          (* = zlen l *)
 
-(* stream.read(n) on what is left *)
-Definition read_n (rest : list Z) (n : Z) : list Z :=
-  if zlen rest <=? n then rest else firstn (Z.to_nat n) rest.
+(* the bytes from absolute position pos on (b'' beyond EOF) *)
+Fixpoint skipz (bs : list Z) (pos : Z) : list Z :=
+  if pos <=? 0 then bs else match bs with [] => [] | _ :: r => skipz r (pos - 1) end.
+Definition rest_at (bs : list Z) (pos : Z) : list Z := skipz bs pos.
+
+(* stream.read(n) on what is left: at most n bytes *)
+Fixpoint takez (rest : list Z) (n : Z) : list Z :=
+  if n <=? 0 then [] else match rest with [] => [] | b :: r => b :: takez r (n - 1) end.
+Definition read_n (rest : list Z) (n : Z) : list Z := takez rest n.
 
 (* stream.seek(pos) of io.BytesIO *)
 Definition seek_error (pos : Z) : option string :=
@@ -65,7 +72,7 @@ Definition seek_error (pos : Z) : option string :=
 Definition raw_read (bs : list Z) (pos n : Z) : M (list Z) := fun c =>
   match seek_error pos with
   | Some t => (Err (EPy t), c)
-  | None => let d := read_n (rest_at bs pos) n in (Ok d, tick_bytes c (zlen d))
+  | None => let d := read_n (rest_at bs pos) n in (Ok d, tick_bytes c (blen d))
   end.
 
 (* ---- enum bindings of a struct: (field, table id, strict).  A strict Enum (no
@@ -103,12 +110,14 @@ Definition struct_parse_at (legacy : bool) (L : layout) (binds : list (string * 
   | Some t =>
       if String.eqb t "OverflowError" && negb legacy then (Err EParse, c) else (Err (EPy t), c)
   | None =>
+      (* a static layout reads at most its size; one with file-sized arrays whatever is there *)
       let rest := rest_at bs pos in
-      match decode_layout L rest with
+      let win := match layout_size L with Some n => read_n rest (Z.of_nat n) | None => rest end in
+      match decode_layout L win with
       | Some (r, t) =>
-          let c' := tick_parse c (zlen rest - zlen t) in
+          let c' := tick_parse c (blen win - blen t) in
           if strict_ok binds r then (Ok r, c') else (Err EParse, c')
-      | None => (Err EParse, tick_parse c (zlen rest))
+      | None => (Err EParse, tick_parse c (blen win))
       end
   end.
 
@@ -119,7 +128,7 @@ Fixpoint cstr_scan (fuel : nat) (bs : list Z) (acc : Z) : option (list Z) * Z :=
   | O => (None, acc)
   | S f =>
       let chunk := firstn CHUNK bs in
-      let acc' := acc + zlen chunk in
+      let acc' := acc + blen chunk in
       match find0 chunk with
       | Some i => (Some (firstn i chunk), acc')
       | None =>
